@@ -6,9 +6,10 @@ from vlib import core, enumgen
 from vlib.sexp import Q
 
 PROP = "C04"
-LEAN_MODULES = ["ShootVerif.Props.C04"]
+LEAN_MODULES = ["ShootVerif.Props.C04", "ShootVerif.Props.C04Facts"]
 USES_FACTS = True
 DRIVER = "shootmodel_enum"
+enumgen.regen_enum_facts()          # lean/ShootVerif/Gen/EnumFacts.lean follows the current source (Props/C04Facts.lean)
 
 MANIFEST = dict(
     text="Lean 4 theorems over a model of internal/enumer (stringer-style constant collection, sort by the signed / unsigned value per kind, "
@@ -86,11 +87,14 @@ def make_case(ctx, cid, en, batch=None, mode=None):
     cl, decl = enumgen.classify(en)
     win = enumgen.window(en["kind"], [v for _, v in decl]) if decl else [0, 1]
     variants = stale_variants(ctx, en, decl) if cl in ("wf", "neg", "big") else []
+    rerun = bool(decl) and ctx.rng.random() < 0.3          # shoot runs a second time over the package that holds its own output
     extra = [["win"] + [str(v) for v in win],
              ["stale"] + [[lbl] + [[Q(n), str(v)] for n, v in cur] for lbl, _, cur in variants]]
+    if rerun:
+        extra.append(enumgen.generated_sexp(en, decl))
     variants = [(lbl, dict(files, **lay["extra"]), cur) for lbl, files, cur in variants]
     case = {"id": cid, "en": en, "decl": decl, "files": lay["files"], "mode": lay["mode"], "spread": lay["spread"],
-            "runs": [{"args": ["enum"] + lay["sel"]}],
+            "runs": [{"args": ["enum"] + lay["sel"]}] * (2 if rerun else 1), "rerun": rerun,
             "oracle": {".": enumgen.oracle_c04(en, decl, win)} if decl else {},
             "sexp": enumgen.case_sexp(cid, "c04", en, extra), "cmd": "shoot enum " + " ".join(lay["sel"]),
             "variants": variants, "shape": en.get("shape") if en.get("shape") in VARIANTS else cl}
@@ -189,10 +193,10 @@ def run_cases(ctx, cases, name="mod"):
     impl = {}
     for c in cases:
         r = out[c["id"]]
-        rc = r["runs"][0]["rc"]
+        rc = enumgen.last_rc(r["runs"])
         rel, gen = enumgen.generated_file(r["written"])
         im = {"exit": str(rc)}
-        c["detail"] = {"stderr": r["runs"][0]["stderr"][-400:], "compile": r["compile"], "generated": rel}
+        c["detail"] = {"stderr": r["runs"][-1]["stderr"][-400:], "compile": r["compile"], "generated": rel}
         if rc == 0 and not rel:
             im["file"] = "none"
         elif rc == 0:
@@ -219,8 +223,6 @@ def run_cases(ctx, cases, name="mod"):
 
 
 def sig(c, region, dk, im, m):
-    if region in ("F_local_const", "F_nonident_type"):
-        return region
     kinds = sorted(set(k.split(":")[0] for k in dk))
     return "%s:%s" % (region, ",".join(kinds))
 
@@ -237,6 +239,7 @@ def run(ctx, obl):
                 res.hist("features", f)
             res.hist("shape", c["shape"])
             res.hist("run-mode", c["mode"] + ("+spread" if c["spread"] and c["mode"].startswith("file") else ""))
+            res.hist("rerun", str(c["rerun"]))
             res.hist("requested-feature", c["en"].get("feature", "random"))
             res.hist("stale-variants", str(len(c["variants"])))
             for lbl, _, _ in c["variants"]:
@@ -257,7 +260,8 @@ def run(ctx, obl):
                 "region (negative, > MaxInt64, duplicate value, duplicate trimmed name, typed expression, no constant), then seeded random ones; "
                 "ONE shoot run per package generates T either alone (-type=T), after a companion enum type (-type=Comp,T), by -file=<file of T> with T's const "
                 "blocks spread over several files, or by -file= with a companion type declared before T; the expectation is always T's single-type "
-                "model over all files of the package; the output is compiled with the package and all six methods executed for every declared value and every "
+                "model over all files of the package; in 30% of the cases shoot is run a SECOND time over the package that now holds its own "
+                "output (generated files are never input: same expectation); the output is compiled with the package and all six methods executed for every declared value and every "
                 "value of a window (min-3..max+3, every gap, 0, +-1, the type's min and max); up to four re-declarations of the constants "
                 "(unchanged / one value changed / two values swapped / an edit of the original spec) are compiled against the un-regenerated file. "
                 "non-trivial = distinct declaration with at least two constants outside Out" +
